@@ -500,6 +500,8 @@ func smtName(n string) string { return "|" + strings.ReplaceAll(strings.ReplaceA
 type printer struct {
 	defined map[int]string // term id -> name usable in later commands
 	out     *strings.Builder
+	order   []int // definition order (for scoped removal)
+	marks   []int
 }
 
 func (p *printer) ref(t *Term) string {
@@ -521,6 +523,7 @@ func (p *printer) ref(t *Term) string {
 	case "id":
 		body = p.ref(t.args[0])
 		p.defined[t.id] = body
+		p.order = append(p.order, t.id)
 		return body
 	case "neg":
 		body = "(- " + p.ref(t.args[0]) + ")"
@@ -540,6 +543,7 @@ func (p *printer) ref(t *Term) string {
 	}
 	fmt.Fprintf(p.out, "(define-fun %s () %s %s)\n", name, srt, body)
 	p.defined[t.id] = name
+	p.order = append(p.order, t.id)
 	return name
 }
 
